@@ -63,7 +63,8 @@ def decodeEnd : String → Option TunnelEnd
   | "closed" => some .closed
   | _ => none
 
-/-- kinds that carry a tunnel end are written `<kind>/<end>` -/
+/-- kinds that carry a tunnel end are written `<kind>/<end>`; an upgrade whose request asked to close the
+    connection `upgrade/reqclose/<end>` -/
 def decodePath (kind method status werr : String) : Option Path := do
   let m ← Method.ofName method
   let st ← natOf status
@@ -77,7 +78,8 @@ def decodePath (kind method status werr : String) : Option Path := do
   | ["responseModifierError"] => some (.responseModifierError m st w)
   | ["response"] => some (.response m st w)
   | ["upgradeNonWritable"] => some (.upgradeNonWritable m w)
-  | ["upgrade", e] => (decodeEnd e).map (.upgrade m)
+  | ["upgrade", e] => (decodeEnd e).map (.upgrade m false)
+  | ["upgrade", "reqclose", e] => (decodeEnd e).map (.upgrade m true)
   | ["connectRefused"] => some (.connectRefused st w)
   | ["connectDialFailure"] => some (.connectDialFailure st w)
   | ["connectResponseModifierError"] => some (.connectResponseModifierError st w)
